@@ -14,6 +14,7 @@ import GojaModel.C13.MapModel
 import GojaModel.C13.GatewayLemmas
 import GojaModel.C13.Cache2Lemmas
 import GojaModel.C13.GoSlice
+import GojaModel.C13.Refine
 
 namespace GojaModel.C13
 
@@ -44,6 +45,32 @@ theorem sort_swap_keeps_wrappers (fixed : Bool) (n c : Nat) (f : Nat → Val) (h
   intro s
   have I : Inv s := wrapcache_inv_all_histories fixed n c f h ha
   exact ⟨swap_preserves_readings I i j w, inv_swap I i j⟩
+
+/-- REFINEMENT.  The WrapCache mechanism (backing arrays, valueCache, attach / detach / re-point) implements the
+    documented copy-on-change semantics (Spec.lean: a list of values and wrappers that are either live references to
+    a slot or references to a private copy): for every initial slice / array / struct and EVERY admissible history,
+    forgetting heap, backing arrays and cache after running the mechanism gives exactly the state the spec model
+    reaches on the same history. -/
+theorem wrapcache_refines_documented_semantics (fixed : Bool) (n c : Nat) (f : Nat → Val) (h : List Op)
+    (ha : Admissible (St.init fixed n c f) h) :
+    ((St.init fixed n c f).run h).abs = (Sp.init fixed n c f).run h := by
+  rw [refine_run h _ (inv_init fixed n c f) ha, abs_init]
+
+/-- …in observable terms: after every admissible history the Go-visible length and elements, and what every
+    handed-out wrapper reads, are what the documented semantics says. -/
+theorem wrapcache_observations_as_documented (fixed : Bool) (n c : Nat) (f : Nat → Val) (h : List Op)
+    (ha : Admissible (St.init fixed n c f) h) :
+    let s := (St.init fixed n c f).run h
+    let sp := (Sp.init fixed n c f).run h
+    s.len = sp.len ∧ (∀ i, i < s.len → s.slot i = sp.val i) ∧ (∀ w, w < s.nw → s.readW w = sp.readH w) ∧ s.nw = sp.nh := by
+  intro s sp
+  have hr : s.abs = sp := wrapcache_refines_documented_semantics fixed n c f h ha
+  have I : Inv s := inv_run (inv_init fixed n c f) h ha
+  refine ⟨by rw [← hr]; rfl, ?_, ?_, by rw [← hr]; rfl⟩
+  · intro i hi
+    rw [← hr]; simp [St.abs, hi]
+  · intro w hw
+    rw [← hr]; exact (readH_abs I w hw).symm
 
 /-- LIVE VIEW.  After any admissible history, if `w` is the wrapper script obtains for `a[i]`
     (it is the cached one), then (1) reading through `w` gives the current Go slot value, (2) a write through
@@ -415,7 +442,7 @@ theorem exceptionTo_is_exact (sh : Shape) (h : ExceptionTo sh = true) : relTo sh
         (edges preserved ⇒ the exported graph is isomorphic to the reachable script graph);
     (3) every object that was allocated has been completed (as many finished objects as cache entries);
     (4) the result is the Go object of the root. -/
-theorem export_preserves_sharing_and_cycles (js : Nat → JFields) (fuel root : Nat)
+theorem export_preserves_sharing_and_cycles_of_ok (js : Nat → JFields) (fuel root : Nat)
     (hok : (exportRoot js fuel root).1.ok = true) :
     let r := exportRoot js fuel root
     (∀ a b id : Nat, r.1.cache[a]? = some id → r.1.cache[b]? = some id → a = b) ∧
@@ -444,6 +471,20 @@ theorem export_preserves_sharing_and_cycles (js : Nat → JFields) (fuel root : 
     exact hgood hok e this
   · have : r.1.out.length + ECtx.empty.cache.length = ECtx.empty.out.length + r.1.cache.length := hext.count
     simpa [ECtx.empty] using this
+
+/-- The same without any hypothesis about the recursion: on a heap of `N` objects (all references inside the heap)
+    `N + 1` units of fuel always suffice — the nesting depth of the export is bounded by the number of distinct
+    objects because every nested call has put a new object into the cache. -/
+theorem export_preserves_sharing_and_cycles (js : Nat → JFields) (N root fuel : Nat)
+    (hcl : Closed js N) (hr : root < N) (hf : N + 1 ≤ fuel) :
+    let r := exportRoot js fuel root
+    r.1.ok = true ∧
+    (∀ a b id : Nat, r.1.cache[a]? = some id → r.1.cache[b]? = some id → a = b) ∧
+    (∀ e ∈ r.1.out, OutGood js r.1.cache e) ∧
+    r.1.out.length = r.1.cache.length ∧
+    Img r.1.cache (.ref root) r.2 := by
+  have hok := exportRoot_ok js N root fuel hcl hr hf
+  exact ⟨hok, export_preserves_sharing_and_cycles_of_ok js fuel root hok⟩
 
 /-- the cache is monotone during an export (a partial injective map that only grows): exporting a further value with
     the same ctx keeps every earlier object ↦ address binding. -/
